@@ -103,10 +103,17 @@ def probe(s, rec, bases=(), _nested=False):
             bad = malformed_lines(s)
             if bad:
                 # does the leak go away without the lines naming segments whose table rows are malformed (C02 findings)?
-                keep = '\r'.join(l for l in s.split('\r') if l[:3] not in {b[1] for b in bad})
-                sub = Recorder_like()
+                names = {b[1] for b in bad}
+                lines = s.split('\r')
+                keep = '\r'.join(l for l in lines if l[:3] not in names)
+                alone = '\r'.join([lines[0]] + [l for l in lines[1:] if l[:3] in names])
+                sub, sub2 = Recorder_like(), Recorder_like()
                 probe(keep, sub, bases, _nested=True)
-                if not any(c.startswith('leak:%s:' % stage) for c in sub.causes):
+                probe(alone, sub2, bases, _nested=True)
+                # attributed to the malformed rows only when the leak goes away without those lines AND the header plus
+                # those lines alone reproduce it
+                if not any(c.startswith('leak:%s:' % stage) for c in sub.causes) and \
+                        any(c.startswith('leak:%s:%s:' % (stage, type(e).__name__)) for c in sub2.causes):
                     cause, row = 'leak-through-malformed-table-row', '%s|%s' % bad[0]
         rec.violation(cause, dict({'kind': 'input', 'text': s}, **extra), {'exc': repr(e)[:200]}, row=row)
 
@@ -260,6 +267,16 @@ def run_systematic(spec, rec):
     for name in ('Z0Z', 'Z00', 'ZZ0', 'Z1', 'Z', '', 'ZZZZ', 'zzz', 'pid', '123', 'MSH', 'ZA '):
         for body in ('|1', '', '|', '|1^2&3~4'):
             probe(HAND[0] + '\r' + name + body, rec, bases)
+    # every segment whose table rows are malformed (C02 findings), named explicitly in a message of its version
+    for v in tables.versions():
+        segs = tables.segments(v)
+        for sname in sorted(segs):
+            rows = segs[sname]
+            if rows is None or any(not r.ok for r in rows):
+                top = max([r.num for r in rows if r.num] or [1]) if rows else 1
+                for body in ('|x', '|' * top + 'x^y'):
+                    probe(structref.msh_line(v, 'ADT_A01') + '\r' + sname + body, rec, bases)
+                    rec.count('malformed_segment_probes')
     rec.sample({'kind': 'systematic', 'example': bases[0][:17]})
 
 
